@@ -483,17 +483,17 @@ theorem src_piston_fuel_flow_kg_per_s (P : Params ℝ) (thr v : ℝ) :
 
 /-- `update_mass_vector` of the source: the profile starts at the prescribed mass `mass[0]`, and its decrease over each step is
     the trapezoid of `1 / sgr` (with `sgr < 1` read as infinite range, i.e. no burn) over that step -/
-theorem src_mass_update_forward (mass sgr dx : List ℝ) :
+theorem src_mass_update_forward (mass sgr dx : List ℝ) (hm : mass ≠ []) :
     headD (Kern.mass_update_fwd mass sgr dx) = headD mass ∧
     diffs (Kern.mass_update_fwd mass sgr dx) = trapTerms (sgr.map burnPerMetre) dx := by
-  rw [KernelBridge4.mass_update_fwd]; exact update_forward _ _ _
+  rw [KernelBridge4.mass_update_fwd _ _ _ hm]; exact update_forward _ _ _
 
 /-- `update_mass_vector_backward` of the source: ends at the prescribed mass `mass[-1]`; every step is the trapezoid of its own
     segment (one more integrand value than segment lengths, as numpy requires) -/
-theorem src_mass_update_backward (mass sgr dx : List ℝ) (h : sgr.length = dx.length + 1) :
+theorem src_mass_update_backward (mass sgr dx : List ℝ) (hm : mass ≠ []) (h : sgr.length = dx.length + 1) :
     lastD (Kern.mass_update_bwd mass sgr dx) = lastD mass ∧
     diffs (Kern.mass_update_bwd mass sgr dx) = trapTerms (sgr.map burnPerMetre) dx := by
-  rw [KernelBridge4.mass_update_bwd]; exact update_backward _ _ _ (by simpa using h)
+  rw [KernelBridge4.mass_update_bwd _ _ _ hm]; exact update_backward _ _ _ (by simpa using h)
 
 /-- the same with ONE scalar segment length (scipy / `np.broadcast_to` broadcast it) -/
 theorem src_mass_update_scalar_dx (mass sgr : List ℝ) (d : ℝ) (h : sgr.length = mass.length) (hm : mass ≠ []) :
@@ -501,7 +501,7 @@ theorem src_mass_update_scalar_dx (mass sgr : List ℝ) (d : ℝ) (h : sgr.lengt
      diffs (Kern.mass_update_fwd_scalar_dx mass sgr d) = trapTerms (sgr.map burnPerMetre) (List.replicate (sgr.length - 1) d)) ∧
     (lastD (Kern.mass_update_bwd_scalar_dx mass sgr d) = lastD mass ∧
      diffs (Kern.mass_update_bwd_scalar_dx mass sgr d) = trapTerms (sgr.map burnPerMetre) (List.replicate (mass.length - 1) d)) := by
-  rw [KernelBridge4.mass_update_fwd_scalar, KernelBridge4.mass_update_bwd_scalar]
+  rw [KernelBridge4.mass_update_fwd_scalar _ _ _ hm, KernelBridge4.mass_update_bwd_scalar _ _ _ hm]
   refine ⟨update_forward _ _ _, update_backward _ _ _ ?_⟩
   cases mass with
   | nil => exact absurd rfl hm
@@ -509,10 +509,10 @@ theorem src_mass_update_scalar_dx (mass sgr : List ℝ) (d : ℝ) (h : sgr.lengt
 
 /-- mass never increases along the profile either update of the source produces, whatever the specific ground range (negative,
     zero and sub-unit values included: they burn nothing) and for all non-negative segment lengths -/
-theorem src_mass_update_nonincreasing (mass sgr dx : List ℝ) (hd : ∀ d ∈ dx, 0 ≤ d) :
+theorem src_mass_update_nonincreasing (mass sgr dx : List ℝ) (hm : mass ≠ []) (hd : ∀ d ∈ dx, 0 ≤ d) :
     (Kern.mass_update_fwd mass sgr dx).Pairwise (fun a c => c ≤ a) ∧
     (sgr.length = dx.length + 1 → (Kern.mass_update_bwd mass sgr dx).Pairwise (fun a c => c ≤ a)) := by
-  rw [KernelBridge4.mass_update_fwd, KernelBridge4.mass_update_bwd]
+  rw [KernelBridge4.mass_update_fwd _ _ _ hm, KernelBridge4.mass_update_bwd _ _ _ hm]
   have hb : ∀ y ∈ sgr.map burnPerMetre, 0 ≤ y := by
     intro y hy; obtain ⟨s, _, rfl⟩ := List.mem_map.mp hy; exact burn_nonneg s
   obtain ⟨h1, h2⟩ := update_nonincreasing (headD mass) (sgr.map burnPerMetre) dx hb hd
